@@ -364,38 +364,6 @@ func nameModelled(n string, hasParams bool) bool {
 	return !coreOther[c] && UnknownNames[n]
 }
 
-func nonASCII(v px.Value) bool {
-	switch v := v.(type) {
-	case px.StringValue:
-		for _, c := range v.String() {
-			if c >= 0x80 {
-				return true
-			}
-		}
-	case *types.DeferredType:
-		for _, p := range v.Parameters() {
-			if nonASCII(p) {
-				return true
-			}
-		}
-	case types.Deferred:
-		r := false
-		v.Arguments().Each(func(e px.Value) { r = r || nonASCII(e) })
-		return r
-	case *types.HashEntry:
-		return nonASCII(v.Key()) || nonASCII(v.Value())
-	case *types.Hash:
-		r := false
-		v.EachPair(func(k, e px.Value) { r = r || nonASCII(k) || nonASCII(e) })
-		return r
-	case *types.Array:
-		r := false
-		v.Each(func(e px.Value) { r = r || nonASCII(e) })
-		return r
-	}
-	return false
-}
-
 // Modelled: does the resolver model answer for this parse result (nothing in it lies outside the model)?
 func Modelled(v px.Value) bool {
 	switch v := v.(type) {
@@ -407,13 +375,6 @@ func Modelled(v px.Value) bool {
 		for _, p := range ps {
 			if !Modelled(p) {
 				return false
-			}
-		}
-		if canonName(v.Name()) == "Enum" {
-			for _, p := range ps {
-				if nonASCII(p) {
-					return false
-				}
 			}
 		}
 		return true
